@@ -56,6 +56,10 @@ def run_unit(unit, acc):
     for n in names:
         for vk, s in _variants(n):
             check_case(dict(unit, kind="name", name=s, base=n, variant=vk), acc)
+    # the same configuration dict object handed to two configurations in a row (what a script evaluating two datasets does)
+    if task in CONFIG_TASKS:
+        for n in names[:12] + names[-6:]:
+            check_case(dict(unit, kind="cfg_reuse", name=n), acc)
     # a configuration that does not mention merge_similar_labels behaves like merge_similar_labels=False (the documented default)
     if fam == "autoware" and not merge and task in CONFIG_TASKS:
         for n in names:
@@ -162,7 +166,33 @@ def check_case(case, acc):
     L = FAMILIES[fam]
     gold = ref.golden(fam, task, merge)
     tbl = "cls" if (fam == "traffic_light" and task == "classification2d") else ("other" if fam == "traffic_light" else "aw")
-    if case["kind"] == "cfg_default":
+    if case["kind"] == "cfg_reuse":
+        import copy as _copy
+        from perception_eval.config import PerceptionEvaluationConfig
+        s = case["name"]
+        if _CFG_DIR[0] is None:
+            _CFG_DIR[0] = scratch.new_dir("c14cfg")
+        cfg = {"evaluation_task": task, "target_labels": [s], "label_prefix": fam, "merge_similar_labels": merge, "allow_matching_unknown": True,
+               "center_distance_thresholds": [1.0], "iou_2d_thresholds": [0.5]}
+        if task in ("detection", "tracking", "fp_validation"):
+            cfg.update(max_x_position=10.0, max_y_position=10.0, min_point_numbers=[0], plane_distance_thresholds=[1.0], iou_3d_thresholds=[0.5])
+        before = _copy.deepcopy(cfg)
+        acc.exec(2)
+        try:
+            ecs = [PerceptionEvaluationConfig(["/nonexistent"], CONFIG_TASKS[task], os.path.join(_CFG_DIR[0], "r%d" % i_), cfg) for i_ in range(2)]
+            got = [(e.target_labels[0].name, e.label_converter.convert_label(s).label.name, e.label_params["merge_similar_labels"], e.label_params["matching_label_policy"].name) for e in ecs]
+        except Exception as ex:  # noqa
+            got = ["EXC:" + repr(ex)]
+        acc.compared()
+        want = conv.convert_label(s).label.name
+        acc.state((fam, tbl, merge, "cfg_reuse", want, len(set(map(str, got))) == 1), nontrivial=merge)
+        acc.outcome((fam, "cfg_reuse", want))
+        if cfg != before:
+            acc.violation("config:caller-dict-modified", "constructing a configuration changed the caller's dict: %s -> %s" % (
+                {k_: v_ for k_, v_ in before.items() if cfg.get(k_, "<missing>") != v_}, {k_: cfg.get(k_, "<missing>") for k_ in before if cfg.get(k_, "<missing>") != before[k_]}), case)
+        if len(got) != 2 or got[0] != got[1] or got[0][:2] != (want, want):
+            acc.violation("config:second-use-differs", "two configurations built from one dict resolve %r as %s, the table gives %s" % (s, got, want), case)
+    elif case["kind"] == "cfg_default":
         from perception_eval.config import PerceptionEvaluationConfig
         s = case["name"]
         if _CFG_DIR[0] is None:
